@@ -20,10 +20,10 @@ namespace Discret.Adm
     (after e10cc1c and 8e31124): the two steps only look at these two switches. -/
 theorem C14_code_is_intended :
     Defects.asImplemented.jsonNullPanics = false ∧ Defects.asImplemented.emptyKeyPanics = false ∧
-    Defects.asImplemented.dateRangePanics = false ∧
+    Defects.asImplemented.dateRangePanics = false ∧ Defects.asImplemented.unboundedFirstFrame = false ∧
     (∀ ft pv, bind Defects.asImplemented ft pv = bind Defects.none ft pv) ∧
     (∀ first len, importVerifyingKey Defects.asImplemented first len = importVerifyingKey Defects.none first len) :=
-  ⟨rfl, rfl, rfl, fun _ _ => rfl, fun _ _ => rfl⟩
+  ⟨rfl, rfl, rfl, rfl, fun _ _ => rfl, fun _ _ => rfl⟩
 
 /-! ### (1) the admission matrix -/
 
@@ -151,19 +151,14 @@ theorem C14_first_frame_bounded (len maxBuffer : Nat) (h : maxBuffer < len) :
 /-- **C14_breaks_unboundedFirstFrame** (endpoint.rs:353-355, candidate #29, confirmed on the real code with a
     QUIC client on localhost: corpus/C14/first_frame.ops): the acceptor keeps a connection whose first frame
     announces 1 GiB with a 1 MiB buffer limit (and the process grows by that much before any authentication). -/
-theorem C14_breaks_unboundedFirstFrame : firstFrameAccepted Defects.asImplemented 0x40000000 0x100000 = true := by decide
+theorem C14_breaks_unboundedFirstFrame : firstFrameAccepted Defects.beforeFixes 0x40000000 0x100000 = true := by decide
 
-/-- **C14_frames_partial.** Every `read_u32()` of endpoint.rs is followed by a bound check before the
-    length sizes an allocation or a slice — except the first frame of an accepted connection. -/
-theorem C14_frames_partial :
-    ∀ s ∈ Gen.frameSites, s.bounded = true ∨ (s.stream = "event_receiv" ∧ s.use = "vec![0;len]") := by decide
-
-/-- **C14_breaks_unboundedConnectionInfoFrame** (the same site seen by the translator T5): the one unbounded
-    `read_u32()` of endpoint.rs; the server side of the TLS handshake asks for no client certificate, so any
-    client makes the acceptor allocate up to 4 GiB before any authentication. -/
-theorem C14_breaks_unboundedConnectionInfoFrame :
-    (Gen.frameSites.filter fun s => !s.bounded).map (fun s => (s.stream, s.use)) = [("event_receiv", "vec![0;len]")] ∧
-    Gen.frameSites.length = 5 := by decide
+/-- **C14 (every frame length is bounded).** Over the table of `read_u32()` sites regenerated from
+    endpoint.rs (T5): each of the five lengths read from the wire is compared with a bound, and the reader
+    leaves, before the length sizes an allocation or a slice (full statement since 10c32e2; before it the
+    first frame of an accepted connection was the exception, see `C14_breaks_unboundedFirstFrame`). -/
+theorem C14_frames_bounded :
+    (∀ s ∈ Gen.frameSites, s.bounded = true ∧ s.use ≠ "?") ∧ Gen.frameSites.length = 5 := by decide
 
 /-! ### non-vacuity -/
 
